@@ -513,7 +513,23 @@ def build_func(space, sd, fd, geo=None):
         return node(f, ref, [c1, c2], None)
     if cls == 'bregman':
         c = child()
-        p = _vec(space, fd['point'])
+        pf0 = np.asarray(fd['point'], float)
+        if rv(c) is not None:
+            # the point must lie in the interior of dom f
+            dr = rv(c).dom_residual(pf0)
+            if dr is not None and dr >= 0:
+                cen = rv(c).center()
+                if cen is None or not rv(c).dom_residual(cen) < 0:
+                    raise Rejected('no interior point for Bregman')
+                lo, hi = 0.0, 1.0
+                for _ in range(50):
+                    mid = 0.5 * (lo + hi)
+                    if rv(c).dom_residual(cen + mid * (pf0 - cen)) < 0:
+                        lo = mid
+                    else:
+                        hi = mid
+                pf0 = cen + 0.8 * lo * (pf0 - cen)
+        p = _vec(space, pf0)
         pf = _flatv(space, p)
         sg = None
         if fd.get('subgrad', 'ref') == 'grad':
